@@ -36,7 +36,7 @@ Extraction "selen_model.ml"
   fifo lcg_pick propagate prop_fuel agenda_with search enumerate minimize maximize solve
   solve_lim minimize_lim enumerate_lim never from_check engine_check_interval
   fold fold_cons eval_expr eval_cons holds stmt_cons build lower validate psat to_linear linform
-  rbuild rbuild_fixed rexec rexec_fixed rs0 ruv rn_route rlower rvalidate denote_route route_sem route_fun returns
+  rbuild rbuild_fixed rexec rexec_fixed rs0 ruv rn_route rlower rvalidate rvalidate_prefix denote_route route_sem route_fun returns
   kf_mod_const kf_mod_zero_div kf_const_const kf_felement_bounds kf_noop_route kf_linreif_zero kf_linreif_len kf_gcc_len kf_nonbool_arg
   kf_element_nd_index kf_element_nd_dummy kf_table_nd_arity c_and_all c_or_all c_all_of c_any_of arr_dom exec_arr rbuild_ext_fixed rexec_ext_fixed rbuild_fix2 rexec_fix2
   kf_or_not impl_cons all_asgs asg_of_list or_eq_pattern
